@@ -2,18 +2,16 @@ import PrysmVerif.Wire
 import PrysmVerif.Model.C03Exec
 open Wire Model.C03 Model.C03.Exec
 
-/-- model of `Wavefront.focus` / `unfocus`: pad (origin on origin), rotate, DFT, rotate back, ortho scale;
-reported spacing from axis 1 of the padded array -/
-def fftTable (inv : Bool) (m n : Nat) (Q : Float) (f : Array (Array C)) : Nat × Nat × Array (Array C) :=
-  let M := if Q == 1.0 then m else padLenF m Q
-  let N := if Q == 1.0 then n else padLenF n Q
+/-- model of `Wavefront.focus` / `unfocus` on a padded array of `M × N` samples (the shape the implementation actually
+transformed; that `pad2d` chooses `ceil(s·Q)` is C04's claim): pad with the origin on the origin, rotate, DFT, rotate back,
+ortho scale; the reported spacing comes from axis 1 of the padded array -/
+def fftTable (inv : Bool) (m n M N : Nat) (f : Array (Array C)) : Array (Array C) :=
   let e := if inv then eI else eF
   let rows := (Array.range m).map fun j => (Array.range N).map fun l =>
     fftRoute1 e N (padded n N (fun i => getC f j i)) l
   let norm : C := Cx.ofReal (1.0 / Float.sqrt (M.toFloat * N.toFloat))
-  let out := (Array.range M).map fun k => (Array.range N).map fun l =>
+  (Array.range M).map fun k => (Array.range N).map fun l =>
     norm * fftRoute1 e M (padded m M (fun j => getC rows j l)) k
-  (M, N, out)
 
 def step (t : List String) : String :=
   match t with
@@ -39,14 +37,14 @@ def step (t : List String) : String :=
           let c := fixedPoint (dir == "inv") m n M N dx z lam dxo shx shy (parseGrid m n data) k l
           s!"{fmtFloat c.re} {fmtFloat c.im}"
       | _, _, _, _, _, _, _ => "bad-op"
-  | "fft" :: dir :: m :: n :: rest =>
-      match m.toNat?, n.toNat?, floats? rest with
-      | some m, some n, some (Q :: dx :: lam :: efl :: data) =>
-          if data.length ≠ 2 * m * n then "bad-op" else
-          let (M, N, out) := fftTable (dir == "inv") m n Q (parseGrid m n data)
+  | "fft" :: dir :: m :: n :: M :: N :: rest =>
+      match m.toNat?, n.toNat?, M.toNat?, N.toNat?, floats? rest with
+      | some m, some n, some M, some N, some (dx :: lam :: efl :: data) =>
+          if data.length ≠ 2 * m * n ∨ M < m ∨ N < n then "bad-op" else
+          let out := fftTable (dir == "inv") m n M N (parseGrid m n data)
           let rep := if dir == "inv" then psfToPupil dx N.toFloat lam efl else focusDx dx N.toFloat lam efl
-          s!"{M} {N} {fmtFloat rep} {fmtGrid out}"
-      | _, _, _ => "bad-op"
+          s!"{fmtFloat rep} {fmtGrid out}"
+      | _, _, _, _, _ => "bad-op"
   | _ => "bad-op"
 
 def main : IO Unit := mainLoop step
